@@ -406,3 +406,23 @@ def shrink_dae(data, keep=4):
             arr.set('count', str(len(toks)))
             acc.set('count', str(n))
     return ET.tostring(root, encoding='utf-8', xml_declaration=True)
+
+
+def split_libraries(data):
+    """Every library with two or more objects is split in two consecutive libraries of the same kind
+    (a document may hold any number of libraries of a kind)."""
+    ET.register_namespace('', NS_141)
+    root = ET.fromstring(data)
+    for lib in list(root):
+        name = lib.tag.split('}')[-1]
+        if not name.startswith('library_'):
+            continue
+        items = [c for c in lib if c.tag.split('}')[-1] not in ('asset', 'extra')]
+        if len(items) < 2:
+            continue
+        new = ET.Element(lib.tag)
+        for c in items[len(items) // 2:]:
+            lib.remove(c)
+            new.append(c)
+        root.insert(list(root).index(lib) + 1, new)
+    return ET.tostring(root, encoding='utf-8', xml_declaration=True)
